@@ -142,6 +142,55 @@ def strategy(tier):
     return case_strategy()
 
 
+def enumerate_cases(tier):
+    """hash maps with very many variables, up to the 255 a map takes and
+    beyond (where the library refuses)"""
+    def op(kind, k=0, hval=0, key=0):
+        return {"op": kind, "k": k, "key": key, "hval": hval, "vals": [1]}
+    # a value computed from a 4 byte variable goes into an 8 byte hash cell
+    # after a negative / big computed value went through the stack temporary
+    for fmts in (["q", "Q"], ["Q", "q", "I"], ["q", "q", "H", "x"]):
+        for first in (-10, -(1 << 40), (1 << 62) + 5):
+            for ex in ("fake", "kernel"):
+                hv = [{"fmt": f, "default": 0 if f == "x" else 3}
+                      for f in fmts]
+                def big(k):
+                    return first if fmts[k] == "q" else (1 << 63) + 5
+                ops = [op("pr_hsetx", 0, big(0)), op("py_hget", 0),
+                       op("pr_hsetn", 1, 7), op("py_hget", 1),
+                       op("pr_hget", 1), op("pr_hsetx", 1, big(1)),
+                       op("pr_hsetn", 0, 123456), op("py_hget", 0),
+                       op("pr_hget", 0), op("py_hget", 1),
+                       op("pr_hsetn", len(fmts) - 1, 31000),
+                       op("py_hget", len(fmts) - 1)]
+                yield {"hv": hv, "kf": ["I"], "vf": ["I"],
+                       "keys": [[1], [2], [3], [4]], "ops": ops, "kf2": [],
+                       "vf2": [], "keys2": [], "same_struct": False,
+                       "loc": None, "loc_first": False, "hv_base": False,
+                       "sibling": None, "pcpu_extra": 0, "size": 4,
+                       "lru": False, "exec": ex, "derived": False,
+                       "ncpu": 4, "online_delta": 0}
+    for total in (100, 254, 255, 256, 257, 258, 300, 513):
+        for fmt in ("I", "q"):
+            hv = [{"fmt": fmt, "default": 7}, {"fmt": "x", "default": 0},
+                  {"fmt": "B", "default": 200}]
+            ops = [op("py_hget", 0), op("py_hget", 2),
+                   op("py_hpad", hval=total - 4, key=1), op("py_hget", 0),
+                   op("py_hget", 1), op("py_hget", 2),
+                   op("pr_hset", 0, 77), op("py_hpad", hval=253, key=2),
+                   op("py_hpad", hval=254, key=2), op("pr_hget", 0),
+                   op("py_hset", 2, 13), op("py_hpad", hval=0, key=3),
+                   op("pr_hget", 2), op("py_hget", 0), op("pr_hsetx", 0, 5),
+                   op("py_hpad", hval=total - 5, key=3), op("py_hget", 0)]
+            yield {"hv": hv, "hv_pad": total - 3, "kf": ["I"], "vf": ["I"],
+                   "keys": [[1], [2], [3], [4]], "ops": ops, "kf2": [],
+                   "vf2": [], "keys2": [], "same_struct": False, "loc": None,
+                   "loc_first": False, "hv_base": False, "sibling": None,
+                   "pcpu_extra": 0, "size": 4, "lru": False,
+                   "exec": "fake" if fmt == "I" else "kernel",
+                   "derived": False, "ncpu": 4, "online_delta": 0}
+
+
 class KernelExec:
     """the same history against real maps and BPF_PROG_TEST_RUN"""
 
@@ -164,6 +213,9 @@ def real_kernel(ncpu=None):
             yield KernelExec()
         finally:
             tr.close_all()
+
+
+PAD_DEFAULT = 0x5a000000
 
 
 class AfterLoad(Exception):
@@ -220,6 +272,10 @@ def build(case, f):
         ns[f"vo{i}"] = amap.globalVar("q")
     for i, h in enumerate(hv):
         ns[f"hv{i}"] = hmap.globalVar(h["fmt"], h["default"])
+    # many further variables in the same hash map (declared, given a default,
+    # written and read from Python only)
+    for i in range(case.get("hv_pad", 0)):
+        ns[f"hp{i}"] = hmap.globalVar("I", PAD_DEFAULT + i)
 
     def program(e):
         with e.op == 1:
@@ -268,6 +324,14 @@ def build(case, f):
                 with e.sel == i:
                     setattr(e, f"hv{i}",
                             e.ax + 2 if hv[i]["fmt"] == "x" else e.a0 + 3)
+        with e.op == 10:
+            # store a value computed from a 4 byte variable
+            for i in range(len(hv)):
+                if hv[i]["fmt"] != "x":
+                    with e.sel == i:
+                        # (a computed 8 byte value passes the stack first)
+                        setattr(e, f"hv{i}", e.a0 + 3)
+                        setattr(e, f"hv{i}", abs(e.sel2))
         if two:
             with e.op == 8:
                 # both Dicts staged before either update; a local variable
@@ -367,6 +431,12 @@ def run_case(case, judge_overruns=False):
         except HarnessError:
             raise
         except AfterLoad as err:
+            if len(hv) + case.get("hv_pad", 0) > 255 \
+                    and str(err).startswith("error:"):
+                # a hash map has one-byte keys: the 256th variable is refused
+                # (struct.error) when the defaults are written
+                return dict(ok=True, nontrivial=False,
+                            classes=["rejected:more-than-255-hash-variables"])
             return fail(f"the program was loaded, but initialising its maps "
                         f"(the declared defaults) raised {err}"
                         f"{' (hash-map variables declared in a base class)' if case.get('hv_base') else ''}",
@@ -414,10 +484,33 @@ def run_case(case, judge_overruns=False):
                 return fail(f"hash variable {i}:{h['fmt']} holds {got} after "
                             f"loading, its default is {h['default']}",
                             bucket="default")
+        pad = case.get("hv_pad", 0)
+        pads = {i: PAD_DEFAULT + i for i in range(pad)}
+        for i in (0, 1, pad // 2, pad - 2, pad - 1) if pad else ():
+            got = getattr(e, f"hp{i}")
+            if got != pads[i]:
+                return fail(f"further hash variable {len(hv) + i} of "
+                            f"{len(hv) + pad} holds {got:#x} after loading, "
+                            f"its default is {pads[i]:#x}", bucket="default")
         for op in case["ops"]:
             kind = op["op"]
             k = op["k"]
             fmt = hv[k]["fmt"]
+            if kind == "py_hpad":
+                # write one of the further variables, read all of them: the
+                # others keep their values
+                i = op["hval"] % pad
+                setattr(e, f"hp{i}", op["key"] + 1000 * i)
+                pads[i] = op["key"] + 1000 * i
+                for j in range(pad):
+                    got = getattr(e, f"hp{j}")
+                    if got != pads[j]:
+                        return fail(
+                            f"after Python wrote further hash variable "
+                            f"{len(hv) + i} (of {len(hv) + pad}), variable "
+                            f"{len(hv) + j} reads {got:#x}, it holds "
+                            f"{pads[j]:#x}", bucket="pad")
+                continue
             key = tuple(case["keys"][op["key"]])
             kinds.append(kind)
             try:
@@ -451,6 +544,14 @@ def run_case(case, judge_overruns=False):
                         v = min(op["hval"], hi - 3)
                         run_prog(op=7, sel=k, a0=v)
                         cells[k] = v + 3
+                    written_by["h", k] = "pr"
+                elif kind == "pr_hsetn":
+                    if fmt == "x":
+                        continue
+                    lo, hi = dsl.fmt_range(fmt[-1])
+                    v = min(abs(op["hval"]), hi, 0x7fffffff)
+                    run_prog(op=10, sel=k, sel2=v, a0=-op["key"] - 5)
+                    cells[k] = v
                     written_by["h", k] = "pr"
                 elif kind == "pr_hget":
                     run_prog(op=2, sel=k, o0=-12345, ox=-1.5)
